@@ -711,7 +711,11 @@ class CallMixin:
                 ctx.exc(base.none, "AttributeError", node)
             return self.call_contract(c, base, node, st, ctx)
         if k == "val":
-            # methods on untyped row values: strings only
+            if name == "get":
+                # value.get(key, default): a dictionary stored as a row value (anything else has no .get: AttributeError)
+                ctx.exc(z3.Not(Val.is_VRef(base.t)), "AttributeError", node)
+                return self.m_dict_get(SV(ROW, Val.ref(base.t)), node, st, ctx)
+            # other methods on untyped row values: strings only
             if hasattr(self, "m_str_" + name):
                 return self.call_method(self.coerce(base, STR, st), name, node, st, ctx)
         if k == "fun" and base.py and base.py[0] == "name":
